@@ -47,6 +47,8 @@ ASSUMPTIONS = ["n >= 2 break candidates (with a single candidate the implementat
                "equally good)",
                "the MBR-based simplification modes 4-6 are not driven (their cost functions do not return on collinear fixes "
                "and are unrelated to the dynamic programme)",
+               "the 'forbidden' spaces mix unit costs with 1e300 (what __cost_largest_deviation_strict does to forbid a segment); "
+               "optimal then means: within 1e-9 relative of the optimum of the float sums taken in list order",
                "delegation is observed by wrapping tracklib.algo.segmentation.optimalPartition inside the harness process",
                "a second call on the same ndarray object must answer for the matrix the caller built (the values it held "
                "before the first call); whether the first call may modify its argument is not judged by itself"]
@@ -85,6 +87,8 @@ def _values(variant, which):
         vals = [0.1, 0.2, 0.3]      # "the first break of an optimal list" is not what the recursion necessarily records
     elif which == "decimal0":
         vals = [0.0, 0.1, 0.2, 0.3]
+    elif which == "forbidden":  # the library's own way to forbid a segment (1e300 * (deviation > offset) + 1): 53 binary
+        vals = [c(1), c(2), 1e300]  # orders of magnitude between two entries, differences absorb the small terms
     elif which == "signed-wide":
         vals = [c(-3), c(-1), c(2)]
     else:                       # "wide"
@@ -96,7 +100,7 @@ def _matrix_spaces(tier, variant):
     """[(n, value-set name)] completed by this tier for this variant."""
     sp = [(2, "three"), (3, "three"), (4, "three"), (5, "three"), (6, "two"),
           (2, "signed"), (3, "signed"), (4, "signed"), (5, "signed"),
-          (4, "decimal0"), (5, "decimal")]
+          (4, "decimal0"), (5, "decimal"), (4, "forbidden"), (5, "forbidden")]
     if tier == "thorough":
         sp += [(5, "wide"), (7, "two"), (5, "signed-wide"), (5, "decimal0"), (6, "decimal")]
     return sp
